@@ -739,7 +739,9 @@ fn C04_C16_stateless_and_authentication() {
         }
         // stateless under nonce k == k-th message of the stateful sender
         for k in 0..4u64 { let payload = [k as u8; 7]; let a = ti.write_message(&payload, &mut buf).unwrap(); let b = si.write_message(k, &payload, &mut b2).unwrap(); if buf[..a] != b2[..b] { finding("C16", format!("{}: stateless message under nonce {} differs from the stateful sender's message number {}", name, k, k)); bad += 1; } if tr.read_message(&b2[..b], &mut p).is_err() { finding("C16", format!("{}: stateful receiver rejects the stateless message {}", name, k)); bad += 1; } }
+        for b in buf.iter_mut() { *b = 0xA5; }
         if si.write_message(u64::MAX, b"x", &mut buf) != Err(Error::State(snow::error::StateProblem::Exhausted)) { finding("C09", format!("{}: stateless write under nonce 2^64-1 is not refused with Exhausted", name)); bad += 1; }
+        if buf.iter().any(|b| *b != 0xA5) { finding("C09", format!("{}: the refused stateless write under the reserved nonce 2^64-1 still produced output (the cipher was run with that nonce)", name)); bad += 1; }
         if sr.read_message(u64::MAX, &[0u8; 32], &mut p) != Err(Error::State(snow::error::StateProblem::Exhausted)) { finding("C09", format!("{}: stateless read under nonce 2^64-1 is not refused with Exhausted", name)); bad += 1; }
         if is_oneway(name) { if sr.write_message(0, b"x", &mut buf).is_ok() || si.read_message(0, &[0u8; 32], &mut p).is_ok() { finding("C11", format!("{}: one-way rules not enforced in stateless mode", name)); bad += 1; } if tr.write_message(b"x", &mut buf).is_ok() { finding("C11", format!("{}: one-way responder can write", name)); bad += 1; } }
         if bad >= 4 { break; }
